@@ -6,6 +6,7 @@ package main
 // working tree* and the go/ssa form of every library function body. Nothing is executed.
 
 import (
+	_ "embed"
 	"fmt"
 	"go/token"
 	"go/types"
@@ -177,6 +178,34 @@ func (p *Prog) indexFuncs() {
 		}
 	}
 	sort.Slice(p.Funcs, func(i, j int) bool { return p.FuncKey(p.Funcs[i]) < p.FuncKey(p.Funcs[j]) })
+}
+
+//go:embed symbols_pinned.txt
+var pinnedSymbols string
+
+var pinnedSet map[string]bool
+
+// KnownFunc reports whether fn is a named function of the pinned tree (symbols_pinned.txt). Functions that are not —
+// helpers introduced by a later change — have no frozen role in any rule table, so the path engine expands them in place.
+func (p *Prog) KnownFunc(fn *ssa.Function) bool {
+	if p.Control {
+		return true
+	}
+	if pinnedSet == nil {
+		pinnedSet = map[string]bool{}
+		for _, l := range strings.Split(pinnedSymbols, "\n") {
+			if l = strings.TrimSpace(l); l != "" {
+				pinnedSet[l] = true
+			}
+		}
+	}
+	if o := fn.Origin(); o != nil {
+		fn = o
+	}
+	for fn.Parent() != nil {
+		fn = fn.Parent()
+	}
+	return pinnedSet[p.FuncKey(fn)]
 }
 
 // IsLib reports whether fn (after Origin resolution) is declared in a library package.
